@@ -48,15 +48,34 @@ def run(ctx):
     items = D.corpus(ctx, xz, q)
     ndirected0 = len(items)
     items += D.directed(ctx, xz, q)
+    # the .lzma header domain of spec/LzmaSniff.tla (recognition by xz vs decoding by the library / lzmadec)
+    sn = tlc.run("MCLzmaSniff", workers=1, timeout=600)
+    ctx.add_tlc("MCLzmaSniff", sn, exhaustive=True)
+    if sn.violation:
+        viol("model:MCLzmaSniff:" + sn.violation, sn.out[-3000:], dict(kind="tlc_counterexample"))
+    nhdr0 = len(items)
+    items += D.header_items(ctx, xz, plans_from_tlc(sn.out), q)
+    for i in range(nhdr0, len(items)):
+        D.DET_BY_MODEL[i] = "lzma" if items[i][3]["sniff"] else "none"
     wd = os.path.join(ctx.workdir, "dec"); os.makedirs(wd)
     base = dict(singleStream=False, force=False, nowarn=False, quiet=0)
     import random as _random
     cases = []
     def add(idx, tool, src, opt, fmt, th):
-        name, data, _ = items[idx]
+        name, data = items[idx][:2]
         cases.append(D.make_case(len(cases), idx, name, data, tool, src, opt, fmt, th))
-    for idx, (name, data, fmt) in enumerate(items):
+    for idx, it in enumerate(items):
+        name, data, fmt = it[:3]
         r = _random.Random(ctx.seed * 100003 + idx)
+        if idx >= nhdr0:
+            # memory limit on both sides: huge dictionary sizes end in LZMA_MEMLIMIT_ERROR instead of an allocation
+            ml = dict(base, memlimit=D.MEMLIMIT)
+            add(idx, "xz_dc", "file", ml, "auto", 1)
+            add(idx, r.choice(["xz_dc", "xz_t", "xz_d"]), r.choice(D.SRCS), ml, "lzma", r.choice([1, 4]))
+            add(idx, "xz_dc", r.choice(D.SRCS), dict(ml, force=True), r.choice(["auto", "lzma"]), 1)       # pass-through iff not recognised
+            if it[3]["dict"] <= (96 << 20):
+                add(idx, "lzmadec", r.choice(D.SRCS), base, "auto", 1)
+            continue
         if idx >= ndirected0:
             # inputs built for the model's target classes: every tool that reads the format x every source
             tools = ["xz_dc", "xz_d", "xz_t"] + (["xzdec"] if name.endswith(".xz") else []) + (["lzmadec"] if name.endswith(".lzma") else [])
@@ -104,7 +123,9 @@ def run(ctx):
     # every target class of the model must have been constructed and executed (valid streams only)
     hit = set()
     for c in cases:
-        name, data, fmt = items[c["idx"]]
+        if c["idx"] >= nhdr0:
+            continue                 # header cases carry huge dictionary sizes: only decoded under the memory limit
+        name, data, fmt = items[c["idx"]][:3]
         ic = D.input_class(c["idx"], data, c["fmt"])
         if ic["final"] == "END" and not c["opt"].get("ignoreCheck") and not c["opt"]["singleStream"]:
             hit.add((c["tool"], c["src"], ic["det"], ic["trailing"], ic["atBoundary"], ic["unsupFirst"], ic["unsupLater"]))
@@ -114,8 +135,8 @@ def run(ctx):
         raise MachineryError("%d of %d target classes of GenCliDecode were not executed, e.g. %s" % (len(missing), len(targets), json.dumps(missing[:3])))
     ctx.add_traces(len(items))
     ctx.sample(dict(kind="decode_case", **{k: cases[-3][k] for k in ("name", "tool", "src", "opt", "fmt", "threads", "lib", "retname")}, predicted=preds[cases[-3]["id"]]))
-    ctx.log("decode: %d inputs (%d directed), %d tool runs compared with the library verdict; %d target classes all executed"
-            % (len(items), len(items) - ndirected0, len(cases), len(targets)))
+    ctx.log("decode: %d inputs (%d directed, %d .lzma headers), %d tool runs compared with the library verdict; %d target classes all executed"
+            % (len(items), nhdr0 - ndirected0, len(items) - nhdr0, len(cases), len(targets)))
 
     # ------------------------------------------------------------------ (V) sparse output
     gcfg = os.path.join(ctx.workdir, "gensparse.cfg")
